@@ -102,6 +102,8 @@ try:
             verdict = {0: "missed", 1: "caught", 2: "inconclusive"}.get(rr.returncode, "exit %d" % rr.returncode)
             results[c + ":" + tier] = {"verdict": verdict, "signatures": sigs}
             print("   %s %s: %s %s" % (c, tier, verdict.upper(), "; ".join(sigs)[:300]))
+            if rr.returncode not in (0, 1):
+                print((rr.stdout[-800:] + rr.stderr[-1500:]))
         os.makedirs(dst, exist_ok=True)
         if os.path.abspath(src) != os.path.abspath(dst):
             shutil.copy(patch, os.path.join(dst, "patch.diff"))
